@@ -556,6 +556,10 @@ class _PairsClassifierMixin(BaseMetricLearner, ClassifierMixin):
     score : float
       The ``roc_auc`` score.
     """
+    check_is_fitted(self, 'preprocessor_')
+    pairs, y = check_input(pairs, y, type_of_inputs='tuples',
+                           preprocessor=self.preprocessor_,
+                           estimator=self, tuple_size=self._tuple_size)
     return roc_auc_score(y, self.decision_function(pairs))
 
   def set_threshold(self, threshold):
